@@ -80,7 +80,7 @@ TEMPSEGS = tuple(s.encode() for s in CHAIN + ["tmp"])
 
 # ---------------------------------------------------------------- generators
 DOTTED = ["..", ".", "", "a", ".h", "a.b"]
-SEGS = ["a", "b", "x.y", ".h", "..", ".", "", "a.", "...", "..b", "c.text", "é", "d.d", "a b", "~", "~", "~nosuchuser9", "$HOME", "~.x"]
+SEGS = ["a", "b", "x.y", ".h", "..", ".", "", "a.", "...", "..b", "c.text", "é", "d.d", "a b", "~", "~", "~nosuchuser9", "$HOME", "~.x", "ÿ", "Ã©", "\x7f"]
 BASES = ["", "", "", "b", "b/c", "..", "b/..", "../..", ".", "b/", "../b", "../../..", "x.y", "~", "~/b", "b/~", "~nosuchuser9/b"]
 
 
@@ -120,7 +120,7 @@ def gen_steps(rng):
         return []
     steps = []
     for _ in range(rng.choice([0, 0, 0, 1, 1, 2])):
-        steps.append(gen_reopen(rng, rng.random() < 0.4) if rng.random() < 0.8 else ("doer",))
+        steps.append(gen_reopen(rng, rng.random() < 0.4) if rng.random() < 0.75 else rng.choice([("doer",), ("exists",)]))
     steps.append(("close", rng.random() < 0.8))
     return steps
 
@@ -151,7 +151,7 @@ def gen_reopen(rng, clean):
 
 def gen_pre(rng, name, base, clean, filed, extensioned, fext):
     """pre-existing directories along the expected path with sentinel files in them (harness-side arithmetic only)"""
-    if rng.random() < 0.55:
+    if rng.random() < 0.55 or not isinstance(name, str) or not isinstance(base, str):
         return []
     tail = "hio/clean" if clean else "hio"
     rel = os.path.normpath(os.path.join(tail, base, os.path.dirname(name)))
@@ -184,7 +184,15 @@ def gen_case(rng):
     clean = rng.random() < 0.4
     filed = rng.random() < 0.45
     extensioned = rng.random() < 0.4
-    fext = rng.choice(["text", "text", "text", "db", "t.x"])
+    fext = rng.choice(["text", "text", "text", "db", "t.x", "", "a/b", "/../../x", "..", "é"])
+    if rng.random() < 0.05:
+        name = rng.choice([None, 7, 0])          # not path-like
+    elif rng.random() < 0.04:
+        base = rng.choice([None, 7])
+    elif rng.random() < 0.12:
+        name = ("path", name)                     # a pathlib path object instead of a str
+        if rng.random() < 0.4:
+            base = ("path", base)
     pre = [] if temp else gen_pre(rng, name, base, clean, filed, extensioned, fext)
     entry, steps = gen_entry(rng, gen_steps(rng))
     return (name, base, temp, clean, filed, extensioned, fext, pre, steps, entry)
@@ -217,6 +225,15 @@ def gen_revisit(rng):
             if rng.random() < 0.5:
                 pre.append((d + "/sib", "d"))
                 pre.append((d + "/sib/keep", "f"))
+        if len(parts) > 1 and rng.random() < 0.5:
+            # neighbours whose names are in prefix relation with the path itself
+            for suffix, kind in (("x", "f"), (".bak", "f"), ("0", "d")):
+                if rng.random() < 0.6:
+                    pre.append((rel + suffix, kind))
+                    if kind == "d":
+                        pre.append((rel + suffix + "/data", "f"))
+            if len(parts[-1]) > 1 and parts[-1][:-1] not in (".", "..") and rng.random() < 0.5:
+                pre.append(("/".join(parts[:-1] + [parts[-1][:-1]]), "f"))
         r = rng.random()
         if r < 0.45 and len(parts) > 1:
             if filed or ext:
